@@ -152,6 +152,10 @@ class FileBuilder:
             L += ["/*" + text[2:] + " */", "type %s struct{ F int }" % name, ""]
         elif site == "blockSlashLine":
             L += ["/*", text, "*/", "type %s struct{ F int }" % name, ""]
+        elif site == "groupSecondSpec":
+            L += ["type (", "\t" + text, "\tT%da struct{ F int }" % n, "", "\t%s struct{ F int }" % name, ")", ""]
+        elif site == "afterDirectiveDoc":
+            L += ["var v%d = 3 %s" % (n, text), "", "//go:generate echo %s" % name, "type %s struct{ F int }" % name, ""]
         elif site == "insideBody":
             L += ["func body%d() {" % n, "\t" + text, "\ttype %s struct{ F int }" % name, "\tvar _ %s" % name, "}", ""]
         else:
